@@ -180,3 +180,11 @@ pub(crate) mod deque {
     deque_layout!(x17_deque_4_1_2_1, 4, 3, [0, 1, 3, 4], 5);
     deque_layout!(x17_deque_4_whole, 4, 1, [0, 4], 4);
 }
+
+// native replay slot (cargo kani playback): the driver points IPA_VERIF_REPLAY_DIR at a directory
+// holding one file per hook; the generated test calls the harness by its path relative to this module.
+#[cfg(test)]
+mod replay_here {
+    use super::*;
+    include!(concat!(env!("IPA_VERIF_REPLAY_DIR"), "/streams.rs"));
+}
